@@ -38,3 +38,41 @@ Definition run_suspend (l : list Z) : list Z :=
   let '(c1, e1) := run sstep sinit (map Z.to_nat l) in
   let '(c2, e2, _) := finish sstep 10 c1 10 in
   e1 ++ e2 ++ [s_pushed (fst c2)].
+
+(* Trace conformance: the accesses to one suspend point's m_stack_state, in the order they really happened (logged under a lock by
+   harness/gate/tracelog.h), replayed on the model.  Event = (code, observed old value):
+   1 = exchange(suspended) by the thread that left the stack | 2 = exchange(notified) (r1::resume: by a resumer, or by the leaver itself
+   after it saw `notified`) | 3 = store(active): the stack runs again — the round is over and exactly one resume task must have been pushed |
+   4 = store(notified) (recall_owner: the resume task of a thread's own stack was taken by another thread; allowed once the task was pushed).
+   Result: index of the first event that does not conform (-1 = all conform), number of complete rounds. *)
+Fixpoint sconf (c : sshared * list spc) (evs : list (Z * Z)) (idx rounds : Z) : Z * Z :=
+  match evs with
+  | [] => (-1, rounds)
+  | (code, before) :: tl =>
+      let g := fst c in
+      if code =? 1 then
+        match nth_error (snd c) 0 with
+        | Some SLeave => if s_state g =? before then match step_at sstep c 0 with Some (c', _) => sconf c' tl (idx + 1) rounds | None => (idx, rounds) end
+                         else (idx, rounds)
+        | _ => (idx, rounds)
+        end
+      else if code =? 2 then
+        if negb (s_state g =? before) then (idx, rounds)
+        else match nth_error (snd c) 0 with
+             | Some SSelfResume => match step_at sstep c 0 with Some (c', _) => sconf c' tl (idx + 1) rounds | None => (idx, rounds) end
+             | _ => match nth_error (snd c) 1 with
+                    | Some RNotify => match step_at sstep c 1 with Some (c', _) => sconf c' tl (idx + 1) rounds | None => (idx, rounds) end
+                    | _ => (idx, rounds)
+                    end
+             end
+      else if code =? 3 then
+        match snd c with
+        | [SDone; SDone] => if (s_pushed g =? 1) && (s_state g =? NOTIFIED) && negb (s_pushed_before_left g) then sconf sinit tl (idx + 1) (rounds + 1) else (idx, rounds)
+        | _ => (idx, rounds)
+        end
+      else if code =? 4 then
+        if (s_pushed g =? 1) && (s_state g =? NOTIFIED) && (before =? NOTIFIED) then sconf c tl (idx + 1) rounds else (idx, rounds)
+      else (idx, rounds)
+  end.
+Fixpoint zpairs (l : list Z) : list (Z * Z) := match l with a :: b :: tl => (a, b) :: zpairs tl | _ => [] end.
+Definition run_suspconf (l : list Z) : list Z := let '(i, r) := sconf sinit (zpairs l) 0 0 in [i; r].
